@@ -23,6 +23,7 @@ const c07Rule = "histories as C06 (several merges, restarts with other file-size
 
 func c07Setup(x *crashExec) {
 	x.nestedDepth = 2
+	x.nestedCreates = true
 	x.nonTrivial = func(x *crashExec, inst *kvh.Instant, cuts map[string]int64) bool {
 		if inst.InFlight && inst.OpKind == "merge" && inst.Event.Kind != "return" {
 			x.cs.labels["level-1-image-inside-merge-before-"+inst.Event.Kind+phase(inst)]++
